@@ -131,6 +131,9 @@ class Model:
             return self.layout.cid_of(self.contents[spec[1]])
         if spec[0] == "fake":
             return hashlib.new(self.layout.halgo, b"never-stored-%d" % spec[1]).hexdigest()
+        if spec[0] == "upper":
+            # a caller-supplied cid whose letter case differs from the stored digest: a different string
+            return self.layout.cid_of(self.contents[spec[1]]).upper()
         if spec[0] == "raw":
             return spec[1]
         raise ValueError(spec)
@@ -246,6 +249,8 @@ class Model:
     def _op_dii(self, op):
         data = self.contents[op["content"]]
         cid = self.layout.cid_of(data)
+        if op.get("cid_case") == "upper" and cid.upper() != cid:
+            cid = cid.upper()      # names no stored object (identifiers are compared as given)
         _sum, sum_ok = self.checksum_arg(op, data)
         size_ok = op.get("size", "ok") == "ok"
         present = cid in self.objects or cid in self.permitted
